@@ -34,7 +34,9 @@ use crate::props::c04::{make_bad, Bad};
 use crate::report::{par_map, workers, Report, Tier};
 use crate::seams::{key, Cfg, ManualClock, MemIO, Out};
 
-pub const H: u64 = 1;
+pub const H: u64 = 4;
+/// a hostile operator the node dialed itself (entry of its peer list); never identifies itself
+pub const XD: u64 = 1;
 pub const XA: u64 = 2;
 pub const XU: u64 = 3;
 pub const UNKNOWN: u64 = 77;
@@ -200,6 +202,10 @@ pub enum Hostile {
     B(Blk),
     InvalidBlockBurst,
     C(u64, Conn),
+    /// the hostile operator reflects the node's own handshake: the challenge the node issued on
+    /// the given accepted connection is sent to the node on the connection it dialed (XD), and the
+    /// node's signed answer is delivered back on the accepted connection
+    Reflect(u64),
 }
 
 #[derive(Clone, Copy, Debug, PartialEq, Eq, PartialOrd, Ord)]
@@ -228,6 +234,8 @@ pub fn alphabet() -> Vec<Hostile> {
         v.push(Hostile::B(b));
     }
     v.push(Hostile::InvalidBlockBurst);
+    v.push(Hostile::Reflect(XU));
+    v.push(Hostile::Reflect(XA));
     for p in [XA, XU, UNKNOWN] {
         for c in CONNS {
             v.push(Hostile::C(p, c));
@@ -289,6 +297,8 @@ pub fn start(u: &Uni, lite: bool) -> Result<Sim, String> {
 pub fn start_with(u: &Uni, lite: bool, with_chain: bool) -> Result<Sim, String> {
     let mut cfg = Cfg::new(10, crate::factory::HEARTBEAT);
     cfg.spv = lite;
+    // one entry in the node's own peer list: the connection it dials (index XD)
+    cfg.peers = vec![saito_core::core::util::configuration::PeerConfig { host: "hostile-d".into(), port: 1, protocol: "http".into(), synctype: "full".into() }];
     let mut n = FullNode::new(key(9), cfg, MemIO::new(), ManualClock::new(10_000_000));
     n.consensus.produce_blocks_by_timer = true;
     if !n.init().is_done() {
@@ -308,6 +318,19 @@ pub fn start_with(u: &Uni, lite: bool, with_chain: bool) -> Result<Sim, String> 
         if !r.is_done() {
             return Err("base chain".into());
         }
+    }
+    n.pump();
+    n.q_routing.clear();
+    // the dialed connection comes up; its far end stays silent
+    if !n.tick_routing(2_000).is_done() {
+        return Err("dial tick".into());
+    }
+    if !n.io.take_outbox().into_iter().any(|o| matches!(o, Out::Connect { .. })) {
+        return Err("the node did not dial its configured peer".into());
+    }
+    match n.net(NetworkEvent::PeerConnectionResult { result: Ok((XD, None)) }) {
+        Outcome::Done(()) => {}
+        o => return Err(format!("connect XD: {}", o.label())),
     }
     n.pump();
     n.q_routing.clear();
@@ -665,6 +688,7 @@ pub fn apply(u: &Uni, s: &mut Sim, ev: Ev, rep: &mut Report, hist: &[Ev]) -> Opt
                 Hostile::B(b) => format!("Block{:?}", b),
                 Hostile::InvalidBlockBurst => "InvalidBlockBurst".to_string(),
                 Hostile::C(p, x) => format!("{:?}/{}", x, who(p)),
+                Hostile::Reflect(p) => format!("ReflectOwnHandshake/{}", who(p)),
             };
             match hx {
                 Hostile::M(p, m) => {
@@ -709,6 +733,38 @@ pub fn apply(u: &Uni, s: &mut Sim, ev: Ev, rep: &mut Report, hist: &[Ev]) -> Opt
                         }
                     }
                 }
+                Hostile::Reflect(p) => {
+                    // the challenge outstanding on the accepted connection (the operator saw it on
+                    // the wire; a connection that is already authenticated has none: a fixed value)
+                    let ch = {
+                        let peers = s.n.peers.try_read().expect("peers lock");
+                        peers.index_to_peers.get(&p).and_then(|x| x.challenge_for_peer).unwrap_or([0x48; 32])
+                    };
+                    let kept = s.n.io.take_outbox();
+                    let o = s.n.net(incoming(XD, &Message::HandshakeChallenge(HandshakeChallenge { challenge: ch })));
+                    if !check(o, &what, &mut c) {
+                        return Some(false);
+                    }
+                    let out = s.n.io.take_outbox();
+                    let mut answer: Option<Vec<u8>> = None;
+                    let mut rest = kept;
+                    for o in out {
+                        match &o {
+                            Out::Send { peer, buffer } if *peer == XD && matches!(Message::deserialize(buffer.clone()), Ok(Message::HandshakeResponse(_))) => answer = Some(buffer.clone()),
+                            _ => rest.push(o),
+                        }
+                    }
+                    s.n.io.put_back_outbox(rest);
+                    if let Some(buf) = answer {
+                        let o = s.n.net(incoming_raw(p, buf));
+                        if !check(o, &what, &mut c) {
+                            return Some(false);
+                        }
+                        c.rep.outcome("reflected-handshake-delivered");
+                    } else {
+                        c.rep.outcome("reflection:node-did-not-answer-on-the-dialed-connection");
+                    }
+                }
                 Hostile::C(p, x) => {
                     let ev = match x {
                         Conn::DisconnectExternal => NetworkEvent::PeerDisconnected { peer_index: p, disconnect_type: PeerDisconnectType::ExternalDisconnect },
@@ -741,6 +797,7 @@ fn who(p: u64) -> &'static str {
     match p {
         XA => "authenticated",
         XU => "unauthenticated",
+        XD => "dialed",
         _ => "unknown-index",
     }
 }
@@ -870,6 +927,42 @@ pub fn honest_projection(s: &Sim) -> String {
     )
 }
 
+/// replays a history to its quiescent end, then gives the node six more producer timers (each two
+/// heartbeats later, internal channels drained in their default order) and returns the projection
+fn settle(u: &Uni, lite: bool, hist: &[Ev]) -> Option<(String, usize)> {
+    let mut scratch = Report::new("C11", Tier { thorough: false, seed: 0 }, "model_checking");
+    let (mut s, ok) = replay(u, lite, hist, &mut scratch)?;
+    if !ok {
+        return None;
+    }
+    for _ in 0..6 {
+        let mut c = StepCtx { rep: &mut scratch, hist, lite };
+        let o = s.n.tick_consensus(200_000);
+        if !check(o, "settle-timer", &mut c) {
+            return None;
+        }
+        if !after_step(&mut s, u, "settle-timer", &mut c) {
+            return None;
+        }
+        let mut guard = 0;
+        while let Some(ch) = s.n.pending().first().cloned() {
+            guard += 1;
+            if guard > 200 {
+                return None;
+            }
+            let Some(o) = s.n.step(ch) else { break };
+            if !check(o, "settle-internal", &mut c) {
+                return None;
+            }
+            if !after_step(&mut s, u, "settle-internal", &mut c) {
+                return None;
+            }
+        }
+    }
+    let queued = s.n.mempool.try_read().map(|m| m.blocks_queue.len()).unwrap_or(0);
+    Some((honest_projection(&s), queued))
+}
+
 /// names of the components in which `a` differs from the closest element of `refs`
 fn projection_diff(a: &str, refs: &BTreeSet<String>) -> String {
     let pa: Vec<&str> = a.split(';').collect();
@@ -978,9 +1071,35 @@ pub fn explore(u: &Uni, lite: bool, alpha: &[Hostile], max_hostile: usize, rep: 
                     if let Some(ht) = honest_terminals.filter(|_| !trusted_ghost) {
                         if !ht.contains(&p) {
                             let hostile: Vec<String> = h.iter().filter_map(|e| if let Ev::X(x) = e { Some(format!("{:?}", x)) } else { None }).collect();
+                            let diff = projection_diff(&p, ht);
+                            // which components differ (tip, chain, utxo, supply, pool, peerH, sent)
+                            let comps: Vec<String> = diff.split(" ; ").filter_map(|d| d.trim_start_matches('[').split('=').next().map(|x| x.to_string())).collect();
+                            // a pending transaction that is merely bundled later is not a changed view:
+                            // give the node further producer timers and compare again
+                            let mut later = String::new();
+                            let mut class = "honest-view-changed-by-rejected-input";
+                            if comps == vec!["pool".to_string()] {
+                                match settle(u, lite, &h) {
+                                    Some((p2, _)) if ht.contains(&p2) => {
+                                        rep.outcome("pool-difference-gone-after-further-timers");
+                                        terminals.entry(p).or_insert_with(|| h.clone());
+                                        if seen.insert(d) {
+                                            next.push(h);
+                                        }
+                                        continue;
+                                    }
+                                    Some((_, queued)) if queued > 0 => {
+                                        // the cause is visible: a block is parked in the pool's block
+                                        // queue and can_bundle_block refuses while the queue is not empty
+                                        class = "production-stalled-by-queued-block";
+                                        later = format!(" (still so after six further producer timers; {} block(s) parked in the queue)", queued);
+                                    }
+                                    _ => later = " (still so after six further producer timers)".to_string(),
+                                }
+                            }
                             rep.violate(
-                                &format!("honest-view-changed-by-rejected-input/{}{}", if lite { "lite/" } else { "" }, hostile.join("+")),
-                                format!("end state differs from every hostile-free end state: {}", shorten(&projection_diff(&p, ht))),
+                                &format!("{}/{}{}/{}", class, if lite { "lite/" } else { "" }, hostile.join("+"), comps.join("+")),
+                                format!("end state differs from every hostile-free end state: {}{}", shorten(&diff), later),
                                 json!({"lite": lite, "history": h.iter().map(label).collect::<Vec<_>>()}),
                             );
                         }
@@ -1181,6 +1300,12 @@ pub fn main(tier: Tier, replay_file: Option<String>) -> i32 {
         let honest = explore(&u, lite, &alpha, 0, &mut rep, None, 200_000);
         let ht: BTreeSet<String> = honest.terminals.keys().cloned().collect();
         rep.outcome_n(&format!("{}hostile-free-end-states", tag), ht.len() as u64);
+        if std::env::var("VERIF_C11_DUMP").is_ok() {
+            // developer aid: the reference end states
+            for t in ht.iter() {
+                eprintln!("{}hostile-free end state: {}", tag, t);
+            }
+        }
         if ht.is_empty() {
             rep.machinery(format!("{}the hostile-free run never reached quiescence", tag));
             return rep.finish();
